@@ -209,6 +209,26 @@ prop("C15", True,
      "leg typing of stream values (client/backend) over go/ssa + who-may-call + provenance of relay payloads + dominance/path rules",
      "DESIGN.md §2 C15")
 
+# clauses added by later seed rounds (appended to the level text of the property)
+ADD = {
+ "C01": "The goroutines that accept and dispatch connections only hand a connection on (channel send / go statement): no call on them reaches a Read, Peek or CanHandle on an accepted connection (rule dispatch-loop-confined).",
+ "C02": "Every goroutine started while a frame is processed (per-datagram, per-connection) defers a function that itself calls recover(), or provably cannot panic and calls no third-party decoder (rule frame-goroutine-recovers).",
+ "C04": "In smtp the channels the reporting goroutine drains in one select next to its termination arm are rendezvous channels (rule reporter-handover-synchronous).",
+ "C07": "The active descriptor is closed only once os.OpenFile has returned its replacement (rule descriptor-kept-until-replaced).",
+ "C08": "A goroutine started in a loop of the listeners/server captures no variable the loop assigns again after the go statement (go.mod language version: one loop variable for all iterations; rule goroutine-own-variables).",
+ "C09": "The IPP parser's loops end through the decoder's recorded error: every store to that error is of a non-nil value, and each loop that hands the decoder to further decoding first leaves on LastError (rule decode-loop-ends).",
+ "C12": "After the LDAP catch-all has stored the not-logged-in refusal no other result-code store can execute on that path (rule ldap-gate).",
+ "C13": "The tls.Config that carries the digest-taking GetCertificate callback leaves Certificates empty (the vendored stack otherwise skips the callback for hellos without SNI; rule hello-callback-always-runs), and the channel field the https/http handlers send on is the one the effective SetChannel sets (rule https-events-delivered).",
+ "C14": "ANSWERS A FIN is decided on the state machine's shape by abstract interpretation of handleTCP over the finite set of connection states (mutex held throughout, no callee writes the state; FIN and ACK set, SYN/RST clear): from ESTABLISHED, FIN-WAIT-1 and FIN-WAIT-2 every path advances RCV.NXT by one and then sends a segment with the ACK bit, and under FIN RCV.NXT is never assigned a value that drops the segment's payload (rule fin-answered).",
+ "C15": "What leaves a function after io.ReadAtLeast on a stream is cut at the count it returned (rule stream-read-not-overread).",
+ "C16": "agentConnection.Read reports io.EOF only after it found its receive buffer empty (rule eof-after-drain).",
+ "C17": "Every store to the decoder's recorded error is of a non-nil value (rule decoder-error-sticky).",
+ "C18": "In storage Get/Set the caller's bare key flows only into the namespaced database key (rule storage-key-derivation).",
+ "C20": "The IPv4 parser cuts the payload it hands to the transport parsers at the datagram's total-length field (rule payload-cut-at-ip-length).",
+}
+for _id, _t in ADD.items():
+    P[_id]["text"] += " " + _t
+
 PENDING = {
 }
 
